@@ -25,6 +25,7 @@ INVARIANTS
   Inv_C05_StakeSum
   Inv_C05_Escrow
   Inv_C06_Budget
+  Inv_C06_Funded
   Inv_C06_ProRata
   Inv_C13_QueueSound
   Inv_C13_QueueComplete
@@ -35,6 +36,8 @@ PROPERTIES
   Act_C05_OthersUntouched
   Act_Rejected_NoEffect
   Act_C06_Flows
+  Act_C06_AdjustApplies
   Act_C06_Rate
   Act_C06_RefundOnce
+  Act_C13_OnceOnTime
 CHECK_DEADLOCK FALSE
